@@ -28,7 +28,8 @@ MODS = ["pybrops.breed.prot.pt.G_E_Phenotyping", "pybrops.core.error.error_type_
         "pybrops.breed.prot.sel.cfg.BinarySelectionConfiguration", "pybrops.breed.prot.sel.cfg.SubsetMateSelectionConfiguration", "pybrops.breed.prot.sel.cfg.SampledSelectionConfigurationMixin",
         "pybrops.opt.algo.SteepestDescentSubsetHillClimber", "pybrops.opt.algo.SubsetGeneticAlgorithm", "pybrops.opt.algo.NSGA2SubsetGeneticAlgorithm", "pybrops.opt.algo.pymoo_addon",
         "pybrops.breed.prot.sel.prob.EstimatedBreedingValueSelectionProblem", "pybrops.breed.prot.sel.prob.trans", "pybrops.opt.soln.SubsetSolution",
-        "pybrops.breed.prot.sel.EstimatedBreedingValueSelection", "pybrops.opt.algo.SortingSubsetOptimizationAlgorithm", "pybrops.popgen.bvmat.DenseBreedingValueMatrix",
+        "pybrops.breed.prot.sel.EstimatedBreedingValueSelection", "pybrops.opt.algo.SortingSubsetOptimizationAlgorithm", "pybrops.opt.algo.RealOptimizationAlgorithm",
+        "pybrops.opt.algo.IntegerOptimizationAlgorithm", "pybrops.opt.algo.BinaryOptimizationAlgorithm", "pybrops.opt.soln.RealSolution", "pybrops.opt.soln.IntegerSolution", "pybrops.opt.soln.BinarySolution", "pybrops.popgen.bvmat.DenseBreedingValueMatrix",
         "pybrops.popgen.cmat.DenseMolecularCoancestryMatrix", "pybrops.model.embvmat.DenseExpectedMaximumBreedingValueMatrix", "pybrops.model.gmod.DenseAdditiveLinearGenomicModel"]
 
 
@@ -304,15 +305,36 @@ def _objcomp(name):
     return f
 
 
+def _select_enc(enc):
+    """select() of the Real/Integer/Binary EBV protocols around an optimiser stub that returns a fixed decision vector"""
+    def f(R, sy):
+        import importlib
+        from .C07 import _stub_algo
+        from pybrops.popgen.bvmat.DenseBreedingValueMatrix import DenseBreedingValueMatrix
+        import pybrops.breed.prot.sel.prob.trans as T
+        n = 3
+        Prot = getattr(importlib.import_module("pybrops.breed.prot.sel.EstimatedBreedingValueSelection"), "EstimatedBreedingValue%sSelection" % enc)
+        decn = {"Real": numpy.array([[0.5, 0.25, 0.25]]), "Integer": numpy.array([[2, 0, 1]]), "Binary": numpy.array([[1, 0, 1]])}[enc]
+        algo = _stub_algo(enc, decn, numpy.zeros((1, 1)))
+        kw = dict(rng=R) if R is not None else {}
+        prot = Prot(ntrait=1, unscale=True, ncross=2, nparent=2, nmating=1, nprogeny=1, nobj=1, obj_trans=T.trans_sum, soalgo=algo, **kw)
+        bv = DenseBreedingValueMatrix(mat=_box(numpy.array([[0.5], [2.0], [1.0]]), sy), location=0.0, scale=1.0, taxa=numpy.array(["a", "b", "c"], dtype=object), taxa_grp=numpy.arange(n))
+        return prot.select(pgmat=_pgmat(n, 1), gmat=None, ptdf=None, bvmat=bv, gpmod=None, t_cur=0, t_max=1).xconfig
+    f.__name__ = "c_select_" + enc
+    return f
+
+
 COMP = dict(spawn=c_spawn, wrappers=c_wrappers, tiled=c_tiled, sus=c_sus, axis=c_axis, outcross=c_outcross, cfg_subset=c_cfg_subset, cfg_integer=c_cfg_integer,
             cfg_binary=c_cfg_binary, cfg_real=c_cfg_real, cfg_mate=c_cfg_mate, twoway=_mate("TwoWayCross", 2), twowaydh=_mate("TwoWayDHCross", 2), selfc=_mate("SelfCross", 1),
             threeway=_mate("ThreeWayCross", 3), threewaydh=_mate("ThreeWayDHCross", 3), fourway=_mate("FourWayCross", 4), fourwaydh=_mate("FourWayDHCross", 4),
             hillclimb=c_hillclimb, ga=_ga("SubsetGeneticAlgorithm"), nsga2=_ga("NSGA2SubsetGeneticAlgorithm"), jitter=c_jitter, embv=c_embv, select=c_select)
 for _nm in OBJ:
     COMP[_nm] = _objcomp(_nm)
+for _enc in ("Real", "Integer", "Binary"):
+    COMP["select_" + _enc.lower()] = _select_enc(_enc)
 # components that accept a caller-supplied generator
 TAKES_RNG = ["tiled", "sus", "axis", "outcross", "cfg_subset", "cfg_integer", "cfg_binary", "cfg_real", "cfg_mate", "twoway", "twowaydh", "selfc", "threeway", "threewaydh",
-             "fourway", "fourwaydh", "hillclimb", "ga", "nsga2", "select", "pheno", "pheno_copy"]
+             "fourway", "fourwaydh", "hillclimb", "ga", "nsga2", "select", "pheno", "pheno_copy", "select_real", "select_integer", "select_binary"]
 
 
 def flat(x, acc=None):
@@ -557,7 +579,7 @@ GA_COMPONENTS = ("ga", "nsga2")
 
 def obligations(tier):
     obs = []
-    quick_single = ["pheno", "pheno_copy", "spawn", "wrappers", "tiled", "sus", "axis", "outcross", "cfg_subset", "cfg_real", "cfg_integer", "cfg_mate", "twoway", "twowaydh", "hillclimb", "ga", "select", "jitter"]
+    quick_single = ["select_real", "select_integer", "select_binary", "pheno", "pheno_copy", "spawn", "wrappers", "tiled", "sus", "axis", "outcross", "cfg_subset", "cfg_real", "cfg_integer", "cfg_mate", "twoway", "twowaydh", "hillclimb", "ga", "select", "jitter"]
     all_single = [c for c in COMP if not c.startswith("twin") and (c not in OBJ or c.startswith("pheno"))]
     singles = quick_single if tier == "quick" else all_single
     for c in singles:
